@@ -156,7 +156,7 @@ func TestValueRoundTrip(t *testing.T) {
 	types := roundTripTypes()
 	rapid.Check(t, world.Prop(func(t *rapid.T) {
 		rt := types[rapid.IntRange(0, len(types)-1).Draw(t, "type")]
-		v := gen.Ptr(t, rt.field.Type.Elem(), gen.Opt{Dense: rapid.Bool().Draw(t, "dense"), RelativePeriods: true}, "v")
+		v := gen.Ptr(t, rt.field.Type.Elem(), gen.Opt{Dense: rapid.Bool().Draw(t, "dense"), RelativePeriods: true, Extremes: true}, "v")
 		var holder, back reflect.Value
 		if rt.holder == "cmd" {
 			holder, back = reflect.New(reflect.TypeOf(model.CmdType{})), reflect.New(reflect.TypeOf(model.CmdType{}))
@@ -189,7 +189,7 @@ var cmdShapes = []string{
 	"read", "read+sel", "read+elem", "read+sel+elem",
 	"reply", "reply-partial",
 	"notify-full", "notify-partial", "notify-partial+sel", "notify-delete+sel", "notify-delete+elem",
-	"notify-delete+sel+elem", "notify-delete+sel&partial+sel",
+	"notify-delete+sel+elem", "notify-delete+sel&partial+sel", "notify-delete+elem&partial+sel", "notify-delete+sel+elem&partial+sel",
 }
 
 func needs(shape string) (sel, elem bool) {
@@ -340,6 +340,10 @@ func oneCmd(t *rapid.T, f *gen.Func, shape string) bool {
 		checkCmd(t, f, shape, fd.NotifyOrWriteCmdType(sel.Interface(), nil, false, elem.Interface()), false, true, nilV, sel, nilV, elem, payload)
 	case "notify-delete+sel&partial+sel":
 		checkCmd(t, f, shape, fd.NotifyOrWriteCmdType(sel.Interface(), sel2.Interface(), false, nil), true, true, sel2, sel, nilV, nilV, payload)
+	case "notify-delete+elem&partial+sel":
+		checkCmd(t, f, shape, fd.NotifyOrWriteCmdType(nil, sel2.Interface(), false, elem.Interface()), true, true, sel2, nilV, nilV, elem, payload)
+	case "notify-delete+sel+elem&partial+sel":
+		checkCmd(t, f, shape, fd.NotifyOrWriteCmdType(sel.Interface(), sel2.Interface(), false, elem.Interface()), true, true, sel2, sel, nilV, elem, payload)
 	}
 	return true
 }
